@@ -4,8 +4,10 @@
 package emit
 
 import (
+	"bytes"
 	"github.com/specterops/dawgs/cypher/frontend"
 	"github.com/specterops/dawgs/cypher/models/cypher"
+	"github.com/specterops/dawgs/cypher/models/cypher/format"
 	"github.com/specterops/dawgs/graph"
 	"github.com/specterops/dawgs/internal/verifrt"
 	"github.com/specterops/dawgs/query"
@@ -31,6 +33,10 @@ var verifKindNames = []string{"KA", "KB"}
 var top int
 var slim bool
 
+// raw: connectives are built as bare model nodes (cypher.NewConjunction, ...) instead of
+// through query.And/Or/Xor/Not, which add their own parentheses
+var raw bool
+
 func verifBuild(depth int, nextAtom *int) graph.Criteria {
 	kind := 4
 	if depth > 0 {
@@ -48,6 +54,20 @@ func verifBuild(depth int, nextAtom *int) graph.Criteria {
 			}
 			ops = append(ops, verifBuild(d, nextAtom))
 		}
+		if raw {
+			var exprs []cypher.Expression
+			for _, op := range ops {
+				exprs = append(exprs, op)
+			}
+			switch kind {
+			case 0:
+				return cypher.NewConjunction(exprs...)
+			case 1:
+				return cypher.NewDisjunction(exprs...)
+			default:
+				return cypher.NewExclusiveDisjunction(exprs...)
+			}
+		}
 		switch kind {
 		case 0:
 			return query.And(ops...)
@@ -57,6 +77,9 @@ func verifBuild(depth int, nextAtom *int) graph.Criteria {
 			return query.Xor(ops...)
 		}
 	case 3:
+		if raw {
+			return cypher.NewNegation(verifBuild(depth-1, nextAtom))
+		}
 		return query.Not(verifBuild(depth-1, nextAtom))
 	}
 	i := *nextAtom % verifAtoms
@@ -168,7 +191,7 @@ func verifWhere(q *cypher.RegularQuery) cypher.Expression {
 // all truth values of the atoms - and the parameters carry the operand values.
 func VerifC10Criteria(depth int, slimLeaves int) {
 	next := 0
-	top, slim = depth, slimLeaves == 1
+	top, slim, raw = depth, slimLeaves >= 1, slimLeaves == 2
 	tree := verifBuild(depth, &next)
 	b := neo4j.NewEmptyQueryBuilder()
 	b.Apply(query.Where(tree))
@@ -225,6 +248,93 @@ func VerifC10Criteria(depth int, slimLeaves int) {
 		default:
 			verifrt.Fail("operand type preserved")
 		}
+	}
+}
+
+// VerifC10Literals: a literal operand emitted as text (query.Literal in a model written by
+// the emitter; operands given to the combinators travel as parameters and are covered by
+// VerifC10Criteria) reads back with
+// the same type and value: integers at the boundaries, doubles that a float32 cannot hold,
+// whole-number and very large and very small doubles, booleans, null, lists.
+func VerifC10Literals() {
+	values := []any{int64(0), int64(-1), int64(9223372036854775807), int64(-9223372036854775807), int64(16777217),
+		0.5, 0.123456789, 16777217.0, 1700000123.5, 1e21, 1.5e300, 1e-7, 2.0, -3.25,
+		true, false, nil}
+	v := values[verifrt.NondetChoice("literal", len(values))]
+	// emitted as text (the emitter without literal stripping): reads back as the same literal
+	model, merr := verifNativeParse("match (n) where n.p = 1 return n", nil)
+	if merr != nil {
+		return
+	}
+	original, isComparison := verifWhere(model).(*cypher.Comparison)
+	if !isComparison || len(original.Partials) != 1 {
+		return
+	}
+	original.Partials[0].Right = query.Literal(v)
+	var buffer bytes.Buffer
+	err := format.NewCypherEmitter(false).Write(model, &buffer)
+	verifrt.Assert(err == nil, "a query with a literal operand can be emitted")
+	if err != nil {
+		return
+	}
+	text := buffer.String()
+	verifrt.Observe(text)
+	parsed, perr := verifNativeParse(text, nil)
+	verifrt.Assert(perr == nil, "rendered Cypher parses")
+	if perr != nil {
+		return
+	}
+	where := verifWhere(parsed)
+	comparison, ok := where.(*cypher.Comparison)
+	verifrt.Assert(ok && len(comparison.Partials) == 1, "the parsed predicate is the comparison")
+	if !ok || len(comparison.Partials) != 1 {
+		return
+	}
+	var got any
+	negative := false
+	right := comparison.Partials[0].Right
+	for depth := 0; depth < 6; depth++ {
+		switch typed := right.(type) {
+		case *cypher.UnaryAddOrSubtractExpression:
+			if typed.Operator == cypher.OperatorSubtract {
+				negative = !negative
+			}
+			right = typed.Right
+		case *cypher.ArithmeticExpression:
+			if len(typed.Partials) == 0 {
+				right = typed.Left
+			}
+		case *cypher.Parenthetical:
+			right = typed.Expression
+		}
+	}
+	literal, isLiteral := right.(*cypher.Literal)
+	verifrt.Assert(isLiteral, "the operand reads back as a literal")
+	if !isLiteral {
+		return
+	}
+	got = literal.Value
+	if literal.Null {
+		got = nil
+	}
+	switch want := v.(type) {
+	case int64:
+		value, isInt := got.(int64)
+		if negative {
+			value = -value
+		}
+		verifrt.Assert(isInt && value == want, "an integer literal reads back as the same integer")
+	case float64:
+		value, isFloat := got.(float64)
+		if negative {
+			value = -value
+		}
+		verifrt.Assert(isFloat && value == want, "a floating point literal reads back as the same double")
+	case bool:
+		value, isBool := got.(bool)
+		verifrt.Assert(isBool && value == want, "a boolean literal reads back as the same boolean")
+	default:
+		verifrt.Assert(got == nil, "null reads back as null")
 	}
 }
 
